@@ -202,6 +202,8 @@ def _builtin(s, ctx, func, g, tc, A, caller, ln, last):
             p = parts[0]; v = deref_all(p.fields[1])
             return Str(('fmt', p.fields[0], tkey, v, _norm_ty(p.fields[2])))
         return Str(('fmtn', tkey, tuple((p.fields[0], deref_all(p.fields[1]), _norm_ty(p.fields[2])) for p in parts)))
+    if E('::concat') and ('slice' in g or '[' in g):
+        d = deref_all(A[0]); return Str(('join', '', list(d.items)))
     if E('::join') and ('slice' in g or '[' in g):
         d = deref_all(A[0]); sep = deref_all(A[1])
         return Str(('join', sep.t if isinstance(sep, Str) else '?', list(d.items)))
@@ -441,6 +443,15 @@ def _builtin(s, ctx, func, g, tc, A, caller, ln, last):
         o = A[0]
         if o.variant == 0: return none()
         v = yield from s.call_callable(ctx, A[1], [o.fields[0]]); return some(v) if last == 'map' else v
+    if E('Result::map_or'):
+        o = A[0]
+        if o.variant != 0: return A[1]
+        v = yield from s.call_callable(ctx, A[2], [o.fields[0]]); return v
+    if E('Result::map') or E('Result::map_err') or E('Result::and_then'):
+        o = A[0]; good = 0 if last in ('map', 'and_then') else 1
+        if o.variant != good: return o
+        v = yield from s.call_callable(ctx, A[1], [o.fields[0]])
+        return v if last == 'and_then' else Agg('Result', o.variant, [v])
     if E('Option::map_or'):
         o = A[0]
         if o.variant == 0: return A[1]
@@ -456,7 +467,6 @@ def _builtin(s, ctx, func, g, tc, A, caller, ln, last):
         o = A[0]
         if o.variant == 0: return False
         r = yield from s.call_callable(ctx, A[1], [o.fields[0]]); return r
-    if E('Result::map') and False: pass
     # ------------------------------------------------------------ memory sizes
     if tc and tc[2] == 'estimate_memory' and re.match(r'^[A-Z][0-9]?$', tc[0]):
         v = deref_all(A[0])
@@ -586,6 +596,22 @@ def _builtin(s, ctx, func, g, tc, A, caller, ln, last):
     if tc and tc[0] == 'Duration' and tc[1].startswith('Partial') and tc[2] in ('lt', 'le', 'gt', 'ge', 'eq', 'ne'):
         a, b = deref_all(A[0]).t, deref_all(A[1]).t
         return {'lt': a < b, 'le': a <= b, 'gt': a > b, 'ge': a >= b, 'eq': a == b, 'ne': a != b}[tc[2]]
+    if tc and tc[0] in ('VecDeque', 'Vec') and tc[1] in ('Index', 'IndexMut') and tc[2] in ('index', 'index_mut'):
+        d = deref_all(A[0]); i = _conc_index(ctx, A[1], len(d.items))
+        if i is None: raise Panic('index out of bounds', 'index')
+        return Ref(SlotCell(d.items, i))
+    if tc and tc[0] == 'Duration' and tc[1] in ('Sub', 'Add') and tc[2] in ('sub', 'add'):
+        a, b = deref_all(A[0]).t, deref_all(A[1]).t
+        if tc[2] == 'add': return Duration(a + b)
+        if not ctx.branch(a >= b): raise Panic('overflow when subtracting durations', 'arith')
+        return Duration(a - b)
+    if re.search(r'Duration::(checked_sub|saturating_sub)$', g):
+        a, b = deref_all(A[0]).t, deref_all(A[1]).t
+        if last == 'saturating_sub': return Duration(z3.If(a >= b, a - b, 0) if not (is_conc(a) and is_conc(b)) else max(a - b, 0))
+        return some(Duration(a - b)) if ctx.branch(a >= b) else none()
+    if E('Duration::div_duration_f64'): return to_real(deref_all(A[0]).t) / to_real(deref_all(A[1]).t)
+    if E('Duration::mul_f64'): return Duration(to_real(deref_all(A[0]).t) * to_real(A[1]))
+    if E('Duration::is_zero'): return simp(deref_all(A[0]).t == 0)
     if tc and tc[0] == 'Instant' and tc[1] == 'Sub' and tc[2] == 'sub':
         a, b = deref_all(A[0]), deref_all(A[1])
         if isinstance(b, Instant): return Duration(z3.If(a.t >= b.t, a.t - b.t, 0))
